@@ -156,6 +156,38 @@ def gen_case(rnd, ctx, maxmut):
 
     named = sorted(set(f for it in items[:-1] for f in it[0]) | (set(items[-1][0]) - {0}))
 
+    # links that only occur with the quiet separator ':' (and not in the final item): replacing their value by an EQUAL
+    # object is reported by neither API (both filter user notifications by equality), but must move the listeners
+    quiet_links = set(f for it in items[:-1] for f in it[0] if f in (1, 2)) - set(items[-1][0]) - set(
+        f for it in items[:-1] if it[1] != ":" for f in it[0])
+
+    def prebuilt():
+        """an object that ARRIVES with an already populated container: the container is filled while the object is
+        detached, then the object is attached (by assignment or inside a new container)"""
+        o = rnd.choice(sorted(attached))
+        v = fresh()
+        if v is None:
+            return None
+        out = []
+        for f2 in set([pick([3, 4, 5])] + ([pick([3, 4, 5])] if rnd.random() < 0.3 else [])):
+            vs = [fresh() for _ in range(rnd.randint(1, 2))]
+            if None in vs:
+                return None
+            its = [[key, x] for key, x in zip(["a", "b"], vs)] if f2 == 4 else vs
+            sh.new_cont(v, f2, [list(a) for a in its] if f2 == 4 else its)
+            out.append(["SetCont", v, f2, its, False])
+        if rnd.random() < 0.5:
+            f1 = pick([1, 2])
+            sh.ref[(o, f1)] = v
+            out.append(["SetRef", o, f1, v])
+        else:
+            f1 = pick([3, 4, 5])
+            its = [["a", v]] if f1 == 4 else [v]
+            sh.new_cont(o, f1, [list(a) for a in its] if f1 == 4 else its)
+            out.append(["SetCont", o, f1, its, False])
+        ctx.count("op:prebuilt-subtree-attached")
+        return out
+
     def pick(fields):
         pref = [f for f in fields if f in named]
         return rnd.choice(pref) if pref and rnd.random() < 0.75 else rnd.choice(fields)
@@ -167,6 +199,16 @@ def gen_case(rnd, ctx, maxmut):
         want_ref = any(f in (1, 2) for f in named)
         want_cont = any(f in (3, 4, 5) for f in named)
         if r < (0.35 if want_ref else 0.12):
+            if eqcls and quiet_links and rnd.random() < 0.5:
+                cands = [(x, g) for x in pool for g in sorted(quiet_links) if sh.ref[(x, g)] is not None]
+                v = fresh() if cands else None
+                if v is not None:
+                    o, f = rnd.choice(cands)
+                    sh.ref[(o, f)] = v
+                    ctx.count("op:SetRef-equal-fresh-object")
+                    return ["SetRef", o, f, v, "eq"]
+                if cands:
+                    return None
             f = pick([1, 2])
             v = fresh() if rnd.random() < 0.75 else None
             if v is None and sh.ref[(o, f)] is None and rnd.random() < 0.7:
@@ -175,6 +217,9 @@ def gen_case(rnd, ctx, maxmut):
             sh.ref[(o, f)] = v
             if v is None and was is not None and rnd.random() < 0.35:
                 return ["SetRef", o, f, None, "del"]            # del o.f: back to None, with notification
+            if eqcls and v is not None and was is not None and f in quiet_links and rnd.random() < 0.7:
+                ctx.count("op:SetRef-equal-fresh-object")
+                return ["SetRef", o, f, v, "eq"]                # the fresh object compares EQUAL to the one it replaces
             return ["SetRef", o, f, v]
         if r < (0.35 if want_ref else 0.12) + (0.2 if want_cont else 0.06):
             f = pick([3, 4, 5])
@@ -387,6 +432,14 @@ def gen_case(rnd, ctx, maxmut):
             registered = False
             probes()
             continue
+        if len(items) >= 3 and rnd.random() < (0.35 if deferred else 0.12):
+            ms = prebuilt()
+            if ms:
+                for m in ms:
+                    add(m)
+                refresh()
+                probes()
+                continue
         m = None
         for _ in range(5):
             m = mutation()
@@ -467,6 +520,23 @@ def corpus():
                         ["Probe", 3], ["Probe", 5], ["SetRef", 0, 1, 1], ["Probe", 3], ["Probe", 5],
                         ["Cop", 19, 6, "append", [6], [1, 0, [6]]], ["Probe", 5], ["Probe", 6],
                         ["SetRef", 0, 1, 2], ["Probe", 3], ["Probe", 5], ["Probe", 6]]))
+    # fifth wave, pinned: a DEFERRED registration (what the decorator uses) with a container link below the first
+    # link; the intermediate object arrives with its container already populated
+    for it in ([[[3], ":"], [[3], ":"], [[0], "."]], [[[1], "."], [[3], "."], [[0], "."]],
+               [[[3], "."], [[4], "."], [[0], "."]], [[[1], ":"], [[5], ":"], [[0], "."]]):
+        f1, f2 = it[0][0][0], it[1][0][0]
+        inner = [["a", 2], ["b", 3]] if f2 == 4 else [2, 3]
+        attach = ["SetRef", 0, 1, 1] if f1 == 1 else ["SetCont", 0, f1, [1], False]
+        cs.append(dict(npool=18, root=0, items=it, legacy=legacy_text(it), graphs=l2g(it), deferred=True,
+                       ops=[["Reg"], ["SetCont", 1, f2, inner, False], attach, ["Probe", 1], ["Probe", 2], ["Probe", 3],
+                            ["Unreg"], ["Probe", 2], ["Probe", 3]]))
+    # link objects with a value-based __eq__: the (quiet) link is replaced by an EQUAL fresh object
+    for it in ([[[1], ":"], [[0], "."]], [[[1], ":"], [[2], ":"], [[0], "."]]):
+        cs.append(dict(npool=18, root=0, items=it, legacy=legacy_text(it), graphs=l2g(it), eqcls=True,
+                       ops=[["SetRef", 0, 1, 1], ["SetRef", 1, 2, 2], ["Reg"], ["Probe", 1], ["Probe", 2],
+                            ["SetRef", 0, 1, 3, "eq"], ["SetRef", 3, 2, 4], ["Probe", 1], ["Probe", 2], ["Probe", 3],
+                            ["Probe", 4], ["SetRef", 3, 2, 5, "eq"], ["Probe", 4], ["Probe", 5],
+                            ["Unreg"], ["Probe", 3], ["Probe", 5]]))
     return cs
 
 
